@@ -440,3 +440,12 @@ Proof.
   destruct msg_roundtrip_nonvacuous as (S1 & S2 & S3 & _).
   split; apply spec_decode_rt; auto; try apply lossless_edv; try (vm_compute; reflexivity); unfold depth_fuel; vm_compute; lia.
 Qed.
+
+(* F-06b: what pilota writes for map<int32, double> { 5: -0.0 } with the feature off is, for a conforming reader, { 5: +0.0 } *)
+Theorem spec_out_negzero_refuted :
+  let sc := [[FMap 1 TYPE_INT32 (TScalar TYPE_DOUBLE)]] in
+  let v := VL NMsg [VL NMap [VL NPair [VI 5; VI 9223372036854775808]]] in
+  schema_ok sc = true /\ wt_msg 1 sc 0 v = true /\
+  spec_decode_msg sc 0 (enc_msg false 1 sc 0 v) = Some (VL NMsg [VL NMap [VL NPair [VI 5; VI 0]]]) /\
+  spec_decode_msg sc 0 (enc_msg true 1 sc 0 v) = Some v.
+Proof. cbv zeta. vm_compute. repeat split; reflexivity. Qed.
